@@ -467,11 +467,15 @@ fn mutate(doc: &mut J, mutation: Mutation, spec: &SchemeSpec) -> bool {
                 return false;
             }
             let i = field_idx[choose(field_idx.len(), "ren.which")];
-            let new = match choose(4, "ren.kind") {
+            let new = match choose(7, "ren.kind") {
                 0 => format!("{}x", members[i].0),
                 1 => members[i].0.to_uppercase() + "_",
                 2 => "$list".to_string(),
-                _ => String::new(),
+                3 => String::new(),
+                // long names, ASCII and not (error messages echo the name)
+                4 => format!("{}.{}", members[i].0, "long_name_".repeat(range(5, 30, "ren.long"))),
+                5 => format!("{}{}", "x".repeat(choose(4, "ren.pad")), "\u{e9}".repeat(range(20, 120, "ren.long"))),
+                _ => format!("{}.{}", members[i].0, "\u{540d}\u{524d}".repeat(range(5, 40, "ren.long"))),
             };
             members[i].0 = new;
             kernel::count("mut.rename");
